@@ -396,53 +396,75 @@ def flatten_protocol(idx, rep):
         rep.missing_anchor("tree_flatten / tree_unflatten / flatten of LinearOperator")
         return
     loc_f, loc_u = idx.loc(tf.module, tf.node), idx.loc(tu.module, tu.node)
-    # writer: lengths of the aux tuples in the dynamic / static branch
-    writer = {}
-    loop = next((n for n in df.body_nodes(tf.node) if isinstance(n, ast.For)), None)
-    if loop is None:
-        rep.undecided("flatten-protocol", "tree_flatten:loop", "no loop over the instance attributes")
-    else:
-        it = ast.unparse(loop.iter)
-        rep.decide(True if "vars(self)" in it or "self.__dict__" in it else None, "flatten-protocol", "tree_flatten:fields",
-                   f"writer iterates `{it}`", locs=[loc_f])
-        rep.decide(True if it.startswith("sorted(") else False, "flatten-protocol", "tree_flatten:order",
-                   "writer iterates the attributes in sorted order (structure must not depend on assignment order)" if it.startswith("sorted(") else
-                   f"writer iterates `{it}` unsorted: the tree structure depends on attribute assignment order", detail="" if it.startswith("sorted(") else "unsorted", locs=[loc_f])
-        branch = next((n for n in loop.body if isinstance(n, ast.If)), None)
-        if branch is not None:
-            ntest, pol = df.normalise_test(branch.test)
-            test = ast.unparse(ntest)
-            for label, body in (("dynamic", branch.body if pol else branch.orelse), ("static", branch.orelse if pol else branch.body)):
-                apps = [c for st in body for c in ast.walk(st) if isinstance(c, ast.Call) and isinstance(c.func, ast.Attribute) and c.func.attr == "append"]
-                writer[label] = {ast.unparse(c.func.value): c.args[0] for c in apps if c.args}
-            rep.decide(True if "_dynamic[" in test else None, "flatten-protocol", "tree_flatten:split", f"children/static split decided by `{test}`", locs=[loc_f])
-    # return order (children, aux)
+    # The index's normal form turns collector loops into comprehensions and fuses intermediate lists, so writer and reader are
+    # read as comprehensions over the attribute items whichever way they are written.
+    def deep(fnode, e, depth=0):
+        """e with singly-bound local names replaced by their values (for reading a test such as `dynamic[key]`)"""
+        class R(ast.NodeTransformer):
+            def visit_Name(self, node):
+                if isinstance(node.ctx, ast.Load) and depth < 4:
+                    v = df.resolve_value(fnode, node)
+                    if v is not node and not isinstance(v, (ast.ListComp, ast.DictComp, ast.GeneratorExp, ast.SetComp)):
+                        return deep(fnode, v, depth + 1)
+                return node
+        import copy
+        return R().visit(copy.deepcopy(e))
+
+    def cond_parts(e):
+        """(positive test, element when true, element when false) of a conditional element, polarity normalised"""
+        if not isinstance(e, ast.IfExp):
+            return None
+        ntest, pol = df.normalise_test(e.test)
+        return (ntest, e.body, e.orelse) if pol else (ntest, e.orelse, e.body)
+
     rets = df.returns(tf.node)
-    ret_names = [ast.unparse(e) for e in rets[0].value.elts] if rets and isinstance(rets[0].value, ast.Tuple) else []
+    ret = rets[0].value if rets and isinstance(rets[0].value, ast.Tuple) and len(rets[0].value.elts) == 2 else None
     dyn_len = stat_len = None
-    aux_name = ret_names[1] if len(ret_names) == 2 else None
-    child_name = ret_names[0] if len(ret_names) == 2 else None
-    if writer and aux_name:
-        d = writer.get("dynamic", {}).get(aux_name)
-        s_ = writer.get("static", {}).get(aux_name)
-        dyn_len = len(d.elts) if isinstance(d, ast.Tuple) else None
-        stat_len = len(s_.elts) if isinstance(s_, ast.Tuple) else None
-        child_in_dyn = child_name in writer.get("dynamic", {})
-        child_in_stat = child_name in writer.get("static", {})
-        rep.decide(True if (child_in_dyn and not child_in_stat) else False, "flatten-protocol", "tree_flatten:children",
-                   "exactly the dynamic attributes are emitted as children" if (child_in_dyn and not child_in_stat) else "children are not emitted exactly for the dynamic attributes",
-                   detail="" if (child_in_dyn and not child_in_stat) else "children", locs=[loc_f])
-        if isinstance(s_, ast.Tuple) and len(s_.elts) == 2:
-            keeps_value = ast.unparse(s_.elts[1]) == ast.unparse(loop.target.elts[1]) if isinstance(loop.target, ast.Tuple) else None
-            rep.decide(keeps_value, "flatten-protocol", "tree_flatten:static-value", "static entries carry (key, value)", locs=[loc_f], detail="" if keeps_value else "value")
-    # reader
+    comps = [df.resolve_value(tf.node, e) for e in ret.elts] if ret is not None else []
+    if len(comps) != 2 or not all(isinstance(c, ast.ListComp) and len(c.generators) == 1 for c in comps):
+        rep.undecided("flatten-protocol", "tree_flatten:loop", "tree_flatten does not return (children, aux) built by one pass over the instance attributes")
+    else:
+        children, aux = comps
+        gens = [c.generators[0] for c in comps]
+        its = [ast.unparse(deep(tf.node, g.iter)) for g in gens]
+        it = its[0]
+        same_iter = its[0] == its[1] and ast.dump(gens[0].target) == ast.dump(gens[1].target)
+        rep.decide((True if "vars(self)" in it or "self.__dict__" in it else None) if same_iter else False, "flatten-protocol", "tree_flatten:fields",
+                   f"writer iterates `{it}`" if same_iter else f"children and aux are built from different iterations (`{its[0]}` / `{its[1]}`)", detail="" if same_iter else "iteration", locs=[loc_f])
+        srt = all(x.startswith("sorted(") for x in its)
+        rep.decide(srt, "flatten-protocol", "tree_flatten:order",
+                   "writer iterates the attributes in sorted order (structure must not depend on assignment order)" if srt else
+                   f"writer iterates `{it}` unsorted: the tree structure depends on attribute assignment order", detail="" if srt else "unsorted", locs=[loc_f])
+        val_var = gens[0].target.elts[1] if isinstance(gens[0].target, ast.Tuple) and len(gens[0].target.elts) == 2 else None
+        parts = cond_parts(aux.elt)
+        child_tests = [df.normalise_test(t) for t in children.generators[0].ifs]
+        if parts is not None:
+            test = ast.unparse(deep(tf.node, parts[0]))
+            rep.decide(True if "_dynamic[" in test else None, "flatten-protocol", "tree_flatten:split", f"children/static split decided by `{test}`", locs=[loc_f])
+            dyn_len = len(parts[1].elts) if isinstance(parts[1], ast.Tuple) else None
+            stat_len = len(parts[2].elts) if isinstance(parts[2], ast.Tuple) else None
+            # children: exactly the entries for which the writer emits the dynamic encoding, and the value itself
+            ok_children = (len(child_tests) == 1 and child_tests[0][1] and ast.unparse(deep(tf.node, child_tests[0][0])) == test and not aux.generators[0].ifs
+                           and val_var is not None and ast.unparse(children.elt) == ast.unparse(val_var))
+            rep.decide(bool(ok_children), "flatten-protocol", "tree_flatten:children",
+                       "exactly the dynamic attributes are emitted as children" if ok_children else
+                       f"children are `{ast.unparse(children)}`: not exactly the values of the attributes for which `{test}` holds", detail="" if ok_children else "children", locs=[loc_f])
+            if isinstance(parts[2], ast.Tuple) and len(parts[2].elts) == 2:
+                keeps_value = (ast.unparse(parts[2].elts[1]) == ast.unparse(val_var)) if val_var is not None else None
+                rep.decide(keeps_value, "flatten-protocol", "tree_flatten:static-value", "static entries carry (key, value)", locs=[loc_f], detail="" if keeps_value else "value")
+        else:
+            rep.undecided("flatten-protocol", "tree_flatten:split", f"aux entries `{ast.unparse(aux.elt)}` do not distinguish children from static data by a condition", locs=[loc_f])
+    # reader: a conditional (statement or expression) on the length of an aux entry
     test_len = None
     read_idx = None
-    for n in df.body_nodes(tu.node):
-        ntest, pol = df.normalise_test(n.test) if isinstance(n, ast.If) else (None, True)
-        if isinstance(n, ast.If) and isinstance(ntest, ast.Compare) and isinstance(ntest.ops[0], ast.Eq) and "len(" in ast.unparse(ntest.left) and isinstance(ntest.comparators[0], ast.Constant):
+    for n in ast.walk(tu.node):
+        if not isinstance(n, (ast.If, ast.IfExp)):
+            continue
+        ntest, pol = df.normalise_test(n.test)
+        if isinstance(ntest, ast.Compare) and len(ntest.ops) == 1 and isinstance(ntest.ops[0], ast.Eq) and "len(" in ast.unparse(ntest.left) and isinstance(ntest.comparators[0], ast.Constant):
             test_len = ntest.comparators[0].value
-            eq_body, other_body = (n.body, n.orelse) if pol else (n.orelse, n.body)
+            as_list = lambda b: b if isinstance(b, list) else [b]  # noqa: E731
+            eq_body, other_body = (as_list(n.body), as_list(n.orelse)) if pol else (as_list(n.orelse), as_list(n.body))
             child_branch = any("next(" in ast.unparse(x) for st in eq_body for x in ast.walk(st) if isinstance(x, ast.Call))
             for st in other_body:
                 for x in ast.walk(st):
@@ -453,6 +475,7 @@ def flatten_protocol(idx, rep):
                 rep.decide(ok, "flatten-protocol", "writer-reader:encoding",
                            f"writer encodes children as {dyn_len}-tuples and static data as {stat_len}-tuples; reader takes a child when len == {test_len} and reads element {read_idx} otherwise",
                            detail="" if ok else f"dyn{dyn_len}/stat{stat_len}/test{test_len}/idx{read_idx}", locs=[loc_f, loc_u])
+            break
     if test_len is None:
         rep.undecided("flatten-protocol", "writer-reader:encoding", "reader's length test not found")
     # reader restores every field except the recomputed ones
